@@ -184,7 +184,7 @@ fn c11_def(plan: &c11::CasePlan) -> driver::PropertyDef {
     driver::PropertyDef {
         id: "C11",
         level: "fault_enumeration",
-        rule: "families: sweep = complete single-fault enumeration per small circuit (every write index x {short, EINTR, ENOSPC, sticky EIO}, every disk-full byte budget, every open errno, every read index x {short, EINTR, EIO}, chunked reads (1/7/64 bytes) with EIO at every chunk position, interrupted opens, every truncation offset, every single-bit flip, digit/space/newline substitution at every offset, every header token x replacement token); history = the export path has a history (old contents / earlier larger exports at the same path) before the export under test; seeded = PRNG-drawn multi-fault plans on both sides; corrupt = exporter crash points and stored-data corruption between export and import; text = arbitrary/mutated text files to the importer; s5 = two exporters on one path under a PRNG baton schedule. evaluations = exports + imports + circuit evaluations executed. distinct_nontrivial = distinct worlds (hash of circuit source, fault plans, corruptions, schedule) in which at least one injected fault actually fired, at least one stored byte actually changed, or the export path had a history",
+        rule: "families: sweep = complete single-fault enumeration per small circuit (every write index x {short, EINTR, ENOSPC, sticky EIO}, every disk-full byte budget, every open errno, every read index x {short, EINTR, EIO}, chunked reads (1/7/64 bytes) with EIO at every chunk position, interrupted opens, every truncation offset, every single-bit flip, digit/space/newline substitution at every offset, every header token x replacement token); large = exports of several MiB (block-size dependent behaviour) fault-free or under transparent faults; history = the export path has a history (old contents / earlier larger exports at the same path) before the export under test; seeded = PRNG-drawn multi-fault plans on both sides; corrupt = exporter crash points and stored-data corruption between export and import; text = arbitrary/mutated text files to the importer; s5 = two exporters on one path under a PRNG baton schedule. evaluations = exports + imports + circuit evaluations executed. distinct_nontrivial = distinct worlds (hash of circuit source, fault plans, corruptions, schedule) in which at least one injected fault actually fired, at least one stored byte actually changed, or the export path had a history",
         assumptions: vec![
             "the kernel below the seam is healthy; reordering below the page cache / fsync semantics are not modelled (the exporter never syncs and the property promises no durability)".into(),
             "std::fs::File reaches the OS only through open64/open, write, read, close (start-up liveness test fails closed otherwise)".into(),
